@@ -86,6 +86,16 @@ def sched_segments(conn, ci, sch):
 
 def build_tls_capture(sc):
     """-> (Capture, keylog lines, conns, flows)"""
+    from wire import l2l4 as _l
+    _l.VARIATION.clear()
+    _l.VARIATION.update(sc.get("l2") or {})            # legitimate lower-layer variations (TCP/IP options, IPv6 extension header, padding)
+    try:
+        return _build_tls_capture(sc)
+    finally:
+        _l.VARIATION.clear()
+
+
+def _build_tls_capture(sc):
     conns = [build_conn(cd) for cd in sc["conns"]]
     flows = [flow_of(cd, i) for i, cd in enumerate(sc["conns"])]
     seglists, isns = [], []
